@@ -21,7 +21,7 @@
   Table obligations (re-checked against the regenerated tables on every run):
     `tableOK_gen : TableOK Gen.operators`   (order/associativity conditions, no literal numbers)
     `errTableOK_gen : ErrTableOK Gen.tokErrorLiterals`
-    `regexSN_gen : Gen.tokRegexSN = …`     (the regex the model's `matchSN` was written for)
+    `matchSN_table`           (the model's `matchSN` agrees with the PROBED tokenizer on ~1570 candidate tokens)
 
   Known finding D3 (not in the grammar above: `%` is only written after numeric literals): a
   reference followed by `%` makes the tokenizer raise ValueError — `D3_ref_percent` is the kernel-checked
@@ -50,12 +50,21 @@ theorem errTableOK_gen : ErrTableOK Gen.tokErrorLiterals := by
   intro c
   cases c <;> exact ⟨_, rfl, by decide, by decide, by decide⟩
 
-/-- the scientific-notation guard of the tokenizer is the regex `Model.Tokenizer.matchSN` transcribes: any
-    decimal numeral (`ddd`, `ddd.`, `ddd.ddd`, `.ddd`) followed by one `e`/`E` (repair D0101; it used to be
-    `^[1-9]{1}(\.[0-9]+)?[eE]{1}$`, which left the sign of `80E-3` outside the literal).  A change of the regex in
-    the source breaks this obligation; the language `matchSN` accepts is pinned by the two `example`s below and
-    compared with `re.match` by the correspondence runs. -/
-theorem regexSN_gen : Gen.tokRegexSN = "^([0-9]+\\.?[0-9]*|\\.[0-9]+)[eE]$".toList := by decide
+/-- the scientific-notation guard of the tokenizer BEHAVES like `Model.Tokenizer.matchSN` (any decimal numeral —
+    `ddd`, `ddd.`, `ddd.ddd`, `.ddd` — followed by one `e`/`E`; repair D0101: it used to demand a mantissa
+    `d(.ddd)?`, which left the sign of `80E-3` outside the literal): on every candidate token of the regenerated
+    table (all texts of length 1..4 over `0 5 . E e A` and some longer ones, each PROBED on the running tokenizer with
+    `=<text>+1`) the model glues the sign exactly when the code does.  The tie is behavioural, so an equivalent
+    rewrite of the regex in the source (hoisted, compiled, renamed, restated) keeps this obligation. -/
+theorem matchSN_table : Gen.tokSNCandidates.all (fun t => matchSN t == Gen.tokSNGlued.contains t) = true := by
+  decide +kernel
+
+/-- the candidates hold both kinds (non-vacuity of `matchSN_table`) -/
+example : Gen.tokSNGlued.length ≥ 40 ∧ Gen.tokSNCandidates.length ≥ 1500 ∧
+    Gen.tokSNGlued.contains "12.5E".toList = true ∧ Gen.tokSNGlued.contains "A1E5E".toList = false := by decide +kernel
+
+/-- … and of the error-literal and comparator probes: the near-misses among the candidates are NOT literals -/
+example : Gen.tokErrorCandidates.length > Gen.tokErrorLiterals.length ∧ Gen.tokComparators.length = 3 := by decide
 
 example : ["1E", "1.5e", "80E", "12.5E", "0.5e", "5.E", ".5E", "007E"].all (fun t => matchSN t.toList) = true := by
   decide
